@@ -344,6 +344,44 @@ def run(rep: Report, prog: Program, tier: str) -> None:
             tgt, attr = (m, k) if "." not in k else (getattr(m, k.split(".")[0]), k.split(".")[1])
             setattr(tgt, attr, v)
         return m
+    init_f = prog.func(PC + ".__init__")
+    _hist_cache: Dict[str, Any] = {}
+
+    def _histories(stmt: ast.stmt, env: Dict[str, Any]):
+        """(label, self object) pairs: the fields of the connection that `stmt` reads, as __init__ leaves them and as an earlier negotiation leaves them."""
+        fields = sorted({n.attr for n in ast.walk(stmt) if isinstance(n, ast.Attribute) and isinstance(n.value, ast.Name) and n.value.id == "self"
+                         and isinstance(n.ctx, ast.Load) and not any(isinstance(p, ast.Call) and p.func is n for p in ast.walk(stmt))})
+        if not fields:
+            return [("", _NS())]
+        variants: List[List[Any]] = []
+        for f in fields:
+            if f not in _hist_cache:
+                init = next((x for x in walk_no_nested(init_f.node) if isinstance(x, (ast.Assign, ast.AnnAssign))
+                             and any(isinstance(t, ast.Attribute) and t.attr == f for t in (x.targets if isinstance(x, ast.Assign) else [x.target]))), None)
+                if init is None or init.value is None:
+                    raise AnalysisError(f"C14-VALID: the section loop reads self.{f}, which __init__ does not initialise")
+                v = init.value
+                if isinstance(v, ast.Dict) and not v.keys:
+                    _hist_cache[f] = [("{}", dict), ("non-empty", lambda: {"earlier": "earlier"})]
+                elif isinstance(v, ast.List) and not v.elts:
+                    _hist_cache[f] = [("[]", list), ("non-empty", lambda: ["earlier"])]
+                elif isinstance(v, ast.Call) and unparse(v.func) == "set" and not v.args:
+                    _hist_cache[f] = [("set()", set), ("non-empty", lambda: {"earlier"})]
+                elif isinstance(v, ast.Constant) and v.value is None:
+                    _hist_cache[f] = [("None", lambda: None), ("set", lambda: _NS())]
+                elif isinstance(v, ast.Constant) and isinstance(v.value, bool):
+                    _hist_cache[f] = [("False", lambda: False), ("True", lambda: True)]
+                else:
+                    raise AnalysisError(f"C14-VALID: the section loop reads self.{f} (initialised as `{unparse(v)[:40]}`): no history domain for it")
+            variants.append([(f, lab, mkv) for lab, mkv in _hist_cache[f]])
+        out = []
+        import itertools as _it
+        for combo in _it.product(*variants):
+            o = _NS()
+            for f, lab, mkv in combo:
+                setattr(o, f, mkv())
+            out.append((", ".join(f"self.{f} {lab}" for f, lab, _ in combo), o))
+        return out
     cases = []
     for kind in ("audio", "video", "application"):
         for typ in ("offer", "answer"):
@@ -358,21 +396,27 @@ def run(rep: Report, prog: Program, tier: str) -> None:
             good = section("audio")
             bad = section(kind, **defect)
             media = [bad, good] if position == 0 else [good, bad]
-            ev4 = Evaluator(prog, val_f.module, val_f.cls, {"description": _NS(type=typ, media=media), "self": _NS(), "is_local": False})
-            rejected = None
-            try:
-                ev4.exec_stmt(loops[0])
-                rejected = False
-            except Raised as ex:
-                rejected = ex.name
-            except Unknown as ex:
-                raise AnalysisError(f"C14-VALID cannot evaluate the section loop: {ex}")
             label = f"{typ}: {kind} section #{position} {what}"
-            if want_reject and rejected == "ValueError" or (not want_reject and rejected is False):
-                rep.ok("C14-VALID", label, sample="ValueError" if want_reject else "accepted")
+            # the verdict may not depend on what the connection has been through: every field of the connection the loop reads is tried
+            # both as __init__ leaves it and as it looks after an earlier negotiation
+            verdicts = []
+            for hist_label, self_obj in _histories(loops[0], {"description": _NS(type=typ, media=media), "is_local": False}):
+                ev4 = Evaluator(prog, val_f.module, val_f.cls, {"description": _NS(type=typ, media=media), "self": self_obj, "is_local": False})
+                try:
+                    ev4.exec_stmt(loops[0])
+                    rejected = False
+                except Raised as ex:
+                    rejected = ex.name
+                except Unknown as ex:
+                    raise AnalysisError(f"C14-VALID cannot evaluate the section loop: {ex}")
+                verdicts.append((hist_label, rejected))
+            wrong = [(h, r) for h, r in verdicts if not (want_reject and r == "ValueError" or (not want_reject and r is False))]
+            if not wrong:
+                rep.ok("C14-VALID", label, sample=("ValueError" if want_reject else "accepted") + (f" in {len(verdicts)} connection histories" if len(verdicts) > 1 else ""))
             else:
+                h, rejected = wrong[0]
                 rep.fail(mk_finding(prog, PROP, "C14-VALID", val_f, loops[0],
-                                    f"{label}: the description is {'accepted' if rejected is False else 'rejected with ' + str(rejected)}; it must be "
+                                    f"{label}{' [' + h + ']' if h else ''}: the description is {'accepted' if rejected is False else 'rejected with ' + str(rejected)}; it must be "
                                     f"{'rejected with ValueError before any state changes' if want_reject else 'accepted'}", construct=f"validation of {kind} sections: {what}"))
 
     # ---------------- C14-ABSORB: `closed` is absorbing at the setter, whatever call resumes later
@@ -485,3 +529,30 @@ def run(rep: Report, prog: Program, tier: str) -> None:
                 rep.fail(mk_finding(prog, PROP, "C14-REF", validate, mblock, f"{what}: the description is {'accepted' if accepted else 'rejected'}; it must be "
                                     f"{'accepted' if want_ok else 'rejected with ValueError'} — the reference must be the pending offer, falling back to the current description only when none is pending",
                                     construct="answer reference: " + label[:50]))
+
+    # ---------------- C14-TYPE: the constructor gate - the state table above only knows 'offer' and 'answer'; anything else that got past the constructor
+    # would be applied with no state check at all
+    rep.rule("C14-TYPE", "RTCSessionDescription accepts exactly the four SDP types; the state table covers every type that reaches it", min_instances=10)
+    sd_cls = prog.cls("rtcsessiondescription.RTCSessionDescription")
+    post = prog.find_method(sd_cls, "__post_init__")
+    if post is None:
+        raise AnalysisError("RTCSessionDescription.__post_init__ (type check) not found")
+    from .objhook import make_hook as _mkh
+    th = _mkh(prog)
+    legal = ["offer", "pranswer", "answer", "rollback"]
+    illegal = ["", " ", "r", "offe", "ffer", "swer", "answer rollback", "offer ", " offer", "Offer", "ANSWER", "bogus", "pranswerx", "roll back", "offer\n"]
+    for t in legal + illegal:
+        obj = _NS(__cls__=sd_cls, sdp="v=0\r\n", type=t)
+        try:
+            th.run_method(post, obj, [], {})
+            res = "accepted"
+        except Raised as ex:
+            res = ex.name
+        except Unknown as ex:
+            raise AnalysisError(f"C14-TYPE cannot evaluate __post_init__ for type {t!r}: {ex}")
+        want = "accepted" if t in legal else "ValueError"
+        if res == want:
+            rep.ok("C14-TYPE", f"type {t!r}: {want}")
+        else:
+            rep.fail(mk_finding(prog, PROP, "C14-TYPE", post, post.node, f"RTCSessionDescription(type={t!r}) is {res}, expected {want}: a description whose type is neither 'offer' nor "
+                                "'answer' passes __validate_description without any state check and is stored as the pending description", construct=f"description type {t!r}"))
